@@ -224,7 +224,7 @@ class Dispatcher:
             action, specifier, data = msg
             # special case for *IDN?
             if action == IDENTREQUEST:
-                action, specifier, data = '_ident', None, None
+                return self._handle_ident(conn)
 
             self.log.debug('Looking for handle_%s', action)
             handler = getattr(self, f'handle_{action}', None)
@@ -237,7 +237,7 @@ class Dispatcher:
     def handle_help(self, conn, specifier, data):
         self.log.error('should have been handled in the interface!')
 
-    def handle__ident(self, conn, specifier, data):
+    def _handle_ident(self, conn):
         # Remark: the following line is needed due to issue 66.
         self.reset_connection(conn)
         # The other stuff in issue 66 ('error_closed' message), has to be implemented
